@@ -64,24 +64,25 @@ func (f *tfile) proof(idx int64) (item []byte, hashList []byte, ok bool) {
 type sdPar struct{ I, C, cs, fs, min, price int64 }
 
 type sdFam struct {
-	c       *chain.Chain
-	base    sdk.Context
-	ctx     sdk.Context
-	owners  []string
-	provers []string
-	merkles []string
-	par     sdPar
-	trees   map[string]*tfile // "label|size"
-	roots   map[string]string // hex root -> label
-	sizes   map[string]int64  // per-scenario size of each merkle label (random driver)
-	step    time.Duration
-	rng     *rand.Rand
-	honest  string
-	mode    string
-	curX    M // extras of the event being recorded (Project adds the query cross-check to it)
-	queue   []M
-	hwin    map[string]int64 // honest prover: fid key -> window index of last accepted proof
-	doms    []string
+	c         *chain.Chain
+	base      sdk.Context
+	ctx       sdk.Context
+	owners    []string
+	provers   []string
+	merkles   []string
+	par       sdPar
+	trees     map[string]*tfile // "label|size"
+	roots     map[string]string // hex root -> label
+	sizes     map[string]int64  // per-scenario size of each merkle label (random driver)
+	maxChunks int64             // > 0: random file sizes up to this many chunks
+	step      time.Duration
+	rng       *rand.Rand
+	honest    string
+	mode      string
+	curX      M // extras of the event being recorded (Project adds the query cross-check to it)
+	queue     []M
+	hwin      map[string]int64 // honest prover: fid key -> window index of last accepted proof
+	doms      []string
 }
 
 func init() { families["sd"] = func() Family { return &sdFam{} } }
@@ -97,6 +98,7 @@ func geti0(m M, k string, def int64) int64 {
 
 func (f *sdFam) Setup(cfg M, rng *rand.Rand) {
 	f.rng = rng
+	f.maxChunks = geti0(cfg, "maxchunks", 0)
 	f.owners = strs(getl(cfg, "owners"), []string{"u1", "u2"})
 	f.provers = strs(getl(cfg, "provers"), []string{"p1", "p2", "p3", "p4"})
 	f.merkles = strs(getl(cfg, "merkles"), []string{"m1", "m2", "m3"})
@@ -156,6 +158,9 @@ func (f *sdFam) Reset() M {
 	f.sizes = map[string]int64{}
 	for _, m := range f.merkles {
 		f.sizes[m] = 1 + f.rng.Int63n(3*f.par.cs+1)
+		if f.maxChunks > 0 { // files of many chunks: challenge indexes with two decimal digits and beyond 16
+			f.sizes[m] = 1 + f.rng.Int63n(f.maxChunks*f.par.cs)
+		}
 	}
 	f.queue = nil
 	if f.mode == "forms" { // scripted prelude: providers in several domains, one shared file, everybody proves
@@ -233,6 +238,21 @@ func domURL(who, dom string) string {
 		return "http://node." + who + "." + dom + ".com"
 	}
 	return "https://" + who + "." + dom + ".com"
+}
+
+// aliasIndexes lists chunk indexes whose decimal / hexadecimal spellings can be confused with those of c.
+func aliasIndexes(c int64) []int64 {
+	var out []int64
+	if k, err := strconv.ParseInt(fmt.Sprintf("%x", c), 10, 64); err == nil { // hex spelling read as decimal
+		out = append(out, k)
+	}
+	if k, err := strconv.ParseInt(fmt.Sprintf("%d", c), 16, 64); err == nil { // decimal spelling read as hexadecimal
+		out = append(out, k)
+	}
+	if k, err := strconv.ParseInt(fmt.Sprintf("%o", c), 10, 64); err == nil { // octal spelling read as decimal
+		out = append(out, k)
+	}
+	return out
 }
 
 func domOf(ip string) string {
@@ -708,7 +728,16 @@ func (f *sdFam) Random(rng *rand.Rand) M {
 		p := prover()
 		c := f.curChunk(p, uf)
 		st := M{"a": "postproof", "s": p, "f": f.fidStep(uf), "toProve": c, "c": c, "claim": "valid"}
-		switch q := rng.Intn(20); {
+		q := rng.Intn(20)
+		if f.maxChunks > 0 { // many-chunk files: whenever the challenge has a confusable spelling inside the file, try it half of the time
+			nch := (uf.FileSize + f.par.cs - 1) / f.par.cs
+			for _, k := range aliasIndexes(c) {
+				if k != c && k >= 0 && k < nch && rng.Intn(2) == 0 {
+					q = 17
+				}
+			}
+		}
+		switch {
 		case q < 11:
 		case q == 11:
 			st["claim"] = "junk"
@@ -722,8 +751,19 @@ func (f *sdFam) Random(rng *rand.Rand) M {
 			st["claim"] = "sibling"
 		case q == 16: // valid proof of another chunk, announced honestly
 			st["c"], st["toProve"] = c+1, c+1
-		case q == 17: // right chunk announced, proof of another one
-			st["c"] = c + 1
+		case q == 17: // right chunk announced, proof of another one: a neighbour or an index whose textual encoding is confusable
+			// with the challenged one (18 written in hexadecimal reads "12", 12 read as hexadecimal is 18, ...)
+			var cands []int64
+			nch := (uf.FileSize + f.par.cs - 1) / f.par.cs
+			for _, k := range aliasIndexes(c) { // spelling aliases first
+				if k != c && k >= 0 && k < nch {
+					cands = append(cands, k)
+				}
+			}
+			if len(cands) == 0 || rng.Intn(4) == 0 {
+				cands = append(cands, c+1, c-1, c/10, c%10)
+			}
+			st["c"] = cands[rng.Intn(len(cands))]
 		case q == 18: // unknown file
 			st["f"] = []interface{}{f.rootLabel(uf.Merkle), f.c.LabelOf(uf.Owner), uf.Start + 1000}
 		default:
